@@ -232,7 +232,40 @@ SPEC = dict(
 )
 
 
+def _refresh_replay(replay):
+    """A replay file may hold source-derived footprint lines (broken source tie).  Their access lists are
+    re-derived from the CURRENT source, so that the replay says whether the tie holds now."""
+    import json
+    try:
+        rp = json.load(open(replay))
+    except (OSError, ValueError):
+        return replay
+    ins = rp.get("inputs", [])
+    if not any(" kernel=" in l for l in ins):
+        return replay
+    out = []
+    for l in ins:
+        if " kernel=" not in l:
+            out.append(l)
+            continue
+        f = _fields(l)
+        kernel = f.pop("kernel", "")
+        f.pop("accs", None)
+        try:
+            p = {k: int(v) for k, v in f.items()}
+            out.append(footprint_exec.fmt(0, kernel, p, footprint_exec.derive(kernel, p)).replace("s0 ", l.split(" ", 1)[0] + " ", 1))
+        except Exception as e:      # cannot be interpreted any more: keep the recorded line
+            out.append(l)
+    rp["inputs"] = out
+    path = os.path.join(C.BUILD if C.ALT is None else os.path.join(C.BUILD, C.ALT), "C06-replay-refreshed.json")
+    os.makedirs(os.path.dirname(path), exist_ok=True)
+    json.dump(rp, open(path, "w"), indent=1)
+    return path
+
+
 def main(tier, seed, replay):
+    if replay:
+        replay = _refresh_replay(replay)
     r = build_asan()
     if r["ok"]:
         # read by `footprint run` (vlib.common.run_sharded passes C.ENV to the children)
